@@ -65,6 +65,11 @@ func fieldByName(o Object, fpath []string) (i interface{}, ok bool) {
 		return nil, ok
 	}
 
+	// unexported fields are not fields of the object as far as the DB is concerned
+	if !v.CanInterface() {
+		return nil, false
+	}
+
 	return v.Interface(), ok
 }
 
